@@ -16,6 +16,7 @@ from __future__ import annotations
 
 import collections
 from collections.abc import Iterable, Sequence
+import copy
 import dataclasses
 import enum
 import itertools
@@ -648,8 +649,12 @@ class ConfusionMatrixAggFn(base.AggregateFn):
     ):
       raise ValueError(f'Global vocab is needed for "{self._average}" average.')
     # The initial state (None) of a shard that has not seen any input is skipped.
+    states = list(states)
     iter_acc = (state for state in states if state is not None)
     result = next(iter_acc, None)
+    if states and states[0] is None and result is not None:
+      # Only the first state may be modified: do not merge into a later one.
+      result = copy.deepcopy(result)
     for accumulator in iter_acc:
       result += accumulator
     return result
